@@ -42,6 +42,22 @@ def edit(doc, parts, what, new=None):
     return d
 
 
+def twin(v):
+    if v is True:
+        return 1
+    if v is False:
+        return 0
+    if isinstance(v, int):
+        return True if v == 1 else (False if v == 0 else float(v))
+    if isinstance(v, float) and v == int(v):
+        return int(v)
+    if isinstance(v, list):
+        return [twin(x) for x in v]
+    if isinstance(v, dict):
+        return {k: twin(x) for k, x in v.items()}
+    return v
+
+
 def check_case(ctx, text, doc, cls):
     import jsonpath
 
@@ -68,11 +84,19 @@ def check_case(ctx, text, doc, cls):
         except Exception as e:  # noqa: BLE001
             ctx.violation("match-parts-do-not-address-a-replaceable-node:%s" % type(e).__name__, case, {"text": text, "parts": list(parts)})
             return
-        for what in ("test", "replace", "remove"):
+        for what in ("test", "replace", "replace-twin", "remove"):
             if what == "remove" and not parts:
                 continue
             target = copy.deepcopy(doc)
-            if what == "test":
+            if what == "replace-twin":
+                # a new value that Python's == cannot tell from the matched one (true/1, 0/false, 1/1.0 at any depth)
+                tw = twin(m.obj)
+                if canon(tw) == canon(m.obj):
+                    continue
+                patch = jsonpath.JSONPatch().replace(ptr.value, copy.deepcopy(tw))
+                want = edit(doc, parts, "replace", copy.deepcopy(tw))
+                ctx.count("twin_replacements")
+            elif what == "test":
                 patch = jsonpath.JSONPatch().test(ptr.value, copy.deepcopy(m.obj))
                 want = copy.deepcopy(doc)
             elif what == "replace":
@@ -109,7 +133,7 @@ def run(spec, ctx):
             for text in ("$..*", "$.*", "$..[0]", "$..[-1]"):
                 check_case(ctx, text, doc, "names")
     for _ in range(spec["n"]):
-        doc = gen.gen_doc(r, profile="unique", hostile=r.choice([0.6, 0.95]), max_depth=r.randint(2, 4), fan=r.randint(2, 4))
+        doc = gen.gen_doc(r, profile=r.choice(["unique", "unique", "mixed"]), hostile=r.choice([0.6, 0.95]), max_depth=r.randint(2, 4), fan=r.randint(2, 4))
         for _q in range(2):
             ast = gen.gen_std_query(r, doc, max_segs=3, desc=0.35)
             check_case(ctx, Renderer(r, blanks=0.1).top(ast), doc, "random")
